@@ -13,6 +13,9 @@ def run(chk, ctx):
                        "split by the shape of the returned value, composed through callee summaries), GUARD (read-call iff update_output, write-call otherwise, with an empty output vector), "
                        "ORG (the argument of every driver call is the row's own input vector / the default vector, passed by reborrow only; the yielded DataRow.inputs is that same vector moved), "
                        "WHO-writes of update_output. A user override of write_input is user code; the rule fixes which method is invoked with what.")
+    # "nothing is sent once next() has returned None": the interpreter's end is final (shared with C01)
+    from . import c01
+    c01.end_is_final(chk, P)
     chk.trusted = ["rustc MIR construction and callee resolution (calls through the generic driver parameter stay trait-method calls)"]
     sites = driver_sites(P)
     where = sorted((b.name, nm) for b, bb, nm in sites)
